@@ -6,7 +6,12 @@
  * symbols are kept global by checks/c16.py: keep_globals) and prints one line
  *
  *   X snap recent=<t> exit=<0|1> c0=<alive>,<commpending>,<used>,<conc>,<passopen>,<pqmin|-> c1=... jobs=<one digit per slot: refs|-> \
- *          pqfail=<dt|-> pqdone=<dt|-> trig=<0|1> tready=<0|1> tododir=<0|1> next=<t> fc=<0|1> ct=<t> timeout=<tv_sec|-1> rfds=<list|-> wfds=<list|->
+ *          pqfail=<dt|-> pqdone=<dt|-> trig=<0|1> tready=<0|1> tododir=<0|1> next=<t> fc=<0|1> ct=<t> timeout=<tv_sec|-1> rfds=<list|-> wfds=<list|-> \
+ *          q0=<dt,dt,..|-> q1=<..> qfail=<..> qdone=<..>
+ *
+ * <pqmin>, pqfail=, pqdone= are what the CODE reads (prioq_min: the ROOT p[0] of the heap array).  q0= q1= qfail= qdone= are the due times of
+ * ALL entries of pqchan[0], pqchan[1], pqfail, pqdone in array order: the driver's oracle takes "the earliest due event" to be the minimum over
+ * everything that is queued, independently of which entry sits at the root (a heap whose root is not its minimum is otherwise invisible).
  *
  * tready = the trigger FIFO is readable at this moment (it stays readable until the daemon itself closes it), so this select will report it.
  *
@@ -35,6 +40,13 @@ extern int chanfdout[2], chanfdin[2];
 
 static int c16_nsnap;
 static void c16_fmt_min(char *o, size_t n, prioq *q) { if (q->p && q->len) snprintf(o, n, "%ld", (long)q->p[0].dt); else snprintf(o, n, "-"); }
+/* every entry of the heap array, in array order (at most 200; the scenarios queue a handful of messages) */
+static size_t c16_fmt_all(char *b, size_t n, size_t cap, const char *key, prioq *q) {
+  n += snprintf(b + n, cap - n, " %s=", key);
+  if (!(q->p && q->len)) { b[n++] = '-'; return n; }
+  for (unsigned int i = 0; i < q->len && i < 200 && n + 40 < cap; i++) n += snprintf(b + n, cap - n, "%s%ld", i ? "," : "", (long)q->p[i].dt);
+  return n;
+}
 
 static void c16_snapshot(simproc *p, int nfds, fd_set *r, fd_set *w, struct timeval *tv) {
   static char b[8192]; size_t n = 0; char m[32];
@@ -67,6 +79,8 @@ static void c16_snapshot(simproc *p, int nfds, fd_set *r, fd_set *w, struct time
     }
     if (!any) b[n++] = '-';
   }
+  n = c16_fmt_all(b, n, sizeof b - 2, "q0", &pqchan[0]); n = c16_fmt_all(b, n, sizeof b - 2, "q1", &pqchan[1]);
+  n = c16_fmt_all(b, n, sizeof b - 2, "qfail", &pqfail); n = c16_fmt_all(b, n, sizeof b - 2, "qdone", &pqdone);
   b[n++] = '\n';
   hbuf_add(&sim_trace, b, n);
 }
